@@ -441,8 +441,10 @@ impl<'a> Parser<'a> {
     fn parse_unary(&mut self) -> Result<ast::Expr<'a>, Error> {
         let span = self.stream.current_span();
         let mut expr = ok!(self.parse_unary_only());
-        expr = ok!(self.parse_postfix(expr, span));
-        self.parse_filter_expr(expr)
+        // the arguments of calls, filters and tests and subscripts are
+        // expressions that do not go through `parse_primary`.
+        expr = ok!(with_recursion_guard!(self, self.parse_postfix(expr, span)));
+        with_recursion_guard!(self, self.parse_filter_expr(expr))
     }
 
     fn parse_postfix(
